@@ -252,6 +252,21 @@ def HandMade():
       [RecTable('Q', N(1)), RecTable('S', N(2)), join], True,
       sig={'Q': {'col0': R(a=NUM, b=STR)}, 'S': {'col0': R(a=NUM, b=STR)},
            'J': {'col0': STR}}, with_e=False)
+  # every condition of an else-if chain is Bool (nested ifs in the IR)
+  chain = If(Op('<', X, Lit(N(2))), Lit(S('one')),
+             If(X, Lit(S('two')),
+                If(Op('==', Y, Lit(S('a'))), Lit(S('three')), Lit(S('other')))))
+  Add('else_if_chain_middle_condition', [P1('P', [('col0', chain, '')],
+                                            [Exy()])], False)
+  # one list variable read from two predicates: the element types must agree
+  def ListTable(name, v):
+    return Pred(name, [Rule([('col0', Lit(N(k)), ''),
+                             ('col1', ListE([Lit(v)]), '')]) for k in (0, 1)])
+  lj = P1('J', [('col0', Var('i'), ''), ('col1', Var('l'), '')],
+          [Atom('T', [('col0', Var('i')), ('col1', Var('l'))]),
+           Atom('S', [('col0', Var('i')), ('col1', Var('l'))])])
+  Add('list_join_element_types_differ',
+      [ListTable('T', N(1)), ListTable('S', S('s')), lj], False, with_e=False)
   return out
 
 
